@@ -28,6 +28,7 @@ class Audit(object):
         self.unmodelled = {}
         self.unmodelled_info = {}
         self.outcomes = {}    # entry -> [(kind, why, site)]
+        self.escape = {}      # entry -> {'bad': [text], 'complete': bool}: invariant-carrying values that leave the entry
         self.fns_entered = set()
         self.steps = 0
         self.wall = 0.0
@@ -54,6 +55,7 @@ class AuditInterp(Interp):
         Interp.__init__(self, F, observe=True)
         self.audit = audit
         self.deferred = {}
+        self.escape_bad = []
         self.struct_invariant = invariants.holds_at_ctor
 
     def invoke_local(self, st, fr, t, key, args, gargs, on_ret=None):
@@ -63,6 +65,8 @@ class AuditInterp(Interp):
                 if isinstance(a, Rf) and any(p[0] == 'i' and not vs_of(p[1], st.cons).single() for p in a.path):
                     from .mirpp import ty_str
                     self.deferred[(key, tuple(ty_str(g) for g in gargs))] = gargs
+                    # what is handed to the separately analysed callee leaves this entry
+                    self.escape_bad.extend(escaping_violations(self, st, [self.deref_all(st, x) for x in args]))
                     self.havoc_args(st, args)
                     st.events.append(('summarised-call', key))
                     return self.done(st, fr, t, self.top_of(st, self.ret_ty(fr, t), 'ret'))
@@ -74,6 +78,40 @@ class AuditInterp(Interp):
         site = (fr.key, fr.bb, 't')
         ok, why = invariants.unsafe_call_ok(self, st, key, args)
         self.audit.unsafe_calls.setdefault(site, []).append((key, why, ok, self.stack_keys(st)))
+
+
+def escaping_violations(I, st, values):
+    """invariant-carrying values among `values` (nested) that do not satisfy their invariant under the constraints of st"""
+    from .interp import NEWTYPE_MAX
+    out, seen = [], set()
+
+    def walk(v, depth=0):
+        if depth > 8 or id(v) in seen:
+            return
+        seen.add(id(v))
+        if isinstance(v, Rf):
+            try:
+                walk(I.deref(st, v), depth + 1)
+            except Exception:       # noqa
+                pass
+            return
+        if isinstance(v, Ag):
+            if v.path in NEWTYPE_MAX and v.fields and isinstance(v.fields[0], Sc):
+                vs = vs_of(v.fields[0].term, st.cons)
+                if not vs.subset(VS(0, NEWTYPE_MAX[v.path])):
+                    out.append('%s with value in %r' % (v.path.split('::')[-1], vs))
+            elif v.path in invariants.STRUCTS:
+                r = invariants.holds_at_ctor(I, st, v)
+                if r is not None and r[0] is not True:
+                    out.append('%s: %s' % (v.path.split('::')[-1], r[1]))
+            for f in v.fields:
+                walk(f, depth + 1)
+        elif isinstance(v, Ar):
+            for e in (v.elems[:1] if v.elems and all(e is v.elems[0] for e in v.elems) else v.elems):
+                walk(e, depth + 1)
+    for v in values:
+        walk(v)
+    return out
 
 
 def abstract_unsafe_hook(audit):
@@ -157,6 +195,11 @@ def run_audit(F, only=None):
                 cons = {T.tstr(k): repr(v) for k, v in list(o.st.cons.items())[:12] if k[0] == 't'}
                 A.panics.setdefault(o.site, []).append((o.why, key, cons, tuple(f.key for f in o.st.frames if isinstance(f.key, str))))
         A.outcomes[key] = oc
+        bad = list(I.escape_bad)
+        for o in outs:
+            if o.kind == 'return':
+                bad.extend(escaping_violations(I, o.st, [o.value] + [v for k2, v in o.st.root().locals.items() if isinstance(k2, str)]))
+        A.escape[key] = {'bad': bad[:5], 'complete': not any(o.kind == 'lost' for o in outs)}
         for d, dst in ((I.obs_ctor, A.ctor), (I.obs_cast, A.cast), (I.obs_assert, A.asserts), (I.obs_call, A.calls)):
             for site, lst in d.items():
                 dst.setdefault(site, []).extend(lst)
